@@ -277,6 +277,30 @@ package jsonschema
 //@     invariant buckets: new(hashes) && (forall h int {has(hashes, h)} :: has(hashes, h) ==> newOrNil(hashes[h]) && allocated(hashes[h]) && (isnil(hashes[h]) || fresh(hashes[h])))
 //@     invariant hashes: new(hashes) && (forall h int, k int :: has(hashes, h) ==> newOrNil(hashes[h]) && allocated(hashes[h]) && (0 <= k && k < len(hashes[h]) ==> 0 <= hashes[h][k] && hashes[h][k] < $i))
 
+// The loader cache of one Resolve call (property C03): r.loaded only grows and keeps its entries; a successful
+// resolve(s, base) leaves the document cached under base's text; the caller-supplied Loader is called only for a
+// URI that is not cached. Together: no URI is requested from the Loader twice in one Resolve.
+//@ pred loadedKept(r *resolver) = new(r) && new(r.loaded) && (forall k string {has(r.loaded, k)} :: old(has(r.loaded, k)) ==> has(r.loaded, k) && r.loaded[k] == old(r.loaded[k]))
+
+//@ contract (*resolver).resolve(r, s, baseURI)
+//@   requires new(r) && r.loaded != nil && new(r.loaded) && baseURI != nil
+//@   noframe
+//@   ensures[C03] cached: result1 == nil ==> result0 != nil && new(r.loaded) && has(r.loaded, urlstr(baseURI)) && r.loaded[urlstr(baseURI)] == result0
+//@   ensures[C03] mono: loadedKept(r)
+
+//@ contract (*resolver).resolveRefs(r, rs)
+//@   requires new(r) && r.loaded != nil && new(r.loaded)
+//@   noframe
+//@   ensures[C03] mono: loadedKept(r)
+//@   loopinv[C03] kept: loadedKept(r)
+
+//@ contract (*resolver).resolveRef(r, rs, s, ref)
+//@   requires new(r) && r.loaded != nil && new(r.loaded)
+//@   noframe
+//@   ensures[C03] mono: loadedKept(r)
+//@   loopinv[C03] kept: loadedKept(r)
+//@   atcall[C03] "fnval" uncached: new(r.loaded) && (!has(r.loaded, urlstr($arg0)) || r.loaded[urlstr($arg0)] == nil)
+
 // ApplyDefaults: "The argument must be a pointer to the instance."
 //@ contract (*Resolved).ApplyDefaults(rs, instancep)
 //@   entry
